@@ -1174,4 +1174,124 @@ pub fn c10_special(rec: &mut Rec) {
         }
         rec.sample("STR-c10", format!("{}: single-component replacements vs the pairing relation", t.id));
     });
+    // streaming multi-point verifier against its published relation
+    //   e(sum eta^i C_i - [nu](tau) G, H) = e(pi, [Z](tau) H),  nu = interpolant of the eta-combined claims, Z = vanishing polynomial
+    // for (polynomials, points) in {1,2,3} x {1,2,3,4} - fewer, as many and more polynomials than points
+    {
+        use ark_ec::CurveGroup;
+        let ck = str_key(12, 4, rec.seed);
+        let vk = SVk::from(&ck);
+        let stream = skzg::CommitterKeyStream::from(&ck);
+        let gp: Vec<G1> = stream.powers_of_g.0.to_vec();
+        let g2p: Vec<G2> = stream.powers_of_g2.clone();
+        let pts_all = rho_stream::<Fr381>(rec.seed, 71, 6);
+        let reference = |cs: &[skzg::Commitment<E381>], zs: &[Fr381], evs: &[Vec<Fr381>], pf: &skzg::EvaluationProof<E381>, eta: Fr381| -> bool {
+            let k = zs.len();
+            if evs.len() != cs.len() || evs.iter().any(|e| e.len() != k) || k + 1 > g2p.len() {
+                return false;
+            }
+            // eta-combined claims
+            let mut comb = vec![Fr381::zero(); k];
+            let mut cc = <E381 as Pairing>::G1::zero();
+            let mut pw = Fr381::one();
+            for (c, e) in cs.iter().zip(evs.iter()) {
+                for j in 0..k {
+                    comb[j] += pw * e[j];
+                }
+                cc += naive_mul(&c.verif_inner(), &pw);
+                pw *= eta;
+            }
+            // Lagrange interpolation (naive) and vanishing polynomial
+            let mut nu = vec![Fr381::zero(); k.max(1)];
+            for j in 0..k {
+                let mut basis = vec![Fr381::one()];
+                let mut denom = Fr381::one();
+                for m in 0..k {
+                    if m == j {
+                        continue;
+                    }
+                    let mut next = vec![Fr381::zero(); basis.len() + 1];
+                    for (i, b) in basis.iter().enumerate() {
+                        next[i + 1] += *b;
+                        next[i] -= zs[m] * *b;
+                    }
+                    basis = next;
+                    denom *= zs[j] - zs[m];
+                }
+                if denom.is_zero() {
+                    return false;
+                }
+                let s = comb[j] * ark_ff::Field::inverse(&denom).unwrap();
+                for (i, b) in basis.iter().enumerate() {
+                    nu[i] += s * *b;
+                }
+            }
+            let mut zpoly = vec![Fr381::one()];
+            for z in zs.iter() {
+                let mut next = vec![Fr381::zero(); zpoly.len() + 1];
+                for (i, b) in zpoly.iter().enumerate() {
+                    next[i + 1] += *b;
+                    next[i] -= *z * *b;
+                }
+                zpoly = next;
+            }
+            let lhs_g1 = (cc - naive_msm(&gp[..nu.len()], &nu)).into_affine();
+            let z_g2 = naive_msm(&g2p[..zpoly.len()], &zpoly).into_affine();
+            <E381 as Pairing>::pairing(lhs_g1, g2p[0]) == <E381 as Pairing>::pairing(pf.0, z_g2)
+        };
+        for npoly in 1..=3usize {
+            for npts in 1..=4usize {
+                for (en, eta) in [("r1", rho::<Fr381>(rec.seed, 1)), ("1", Fr381::one()), ("0", Fr381::zero())] {
+                    let id = format!("STR/multi/polys={}/points={}/eta={}", npoly, npts, en);
+                    if !rec.take(&id) {
+                        continue;
+                    }
+                    rec.dim("scheme", "STR");
+                    let polys: Vec<Vec<Fr381>> = (0..npoly).map(|i| rho_stream::<Fr381>(rec.seed, 72 + i as u64, 6 + 2 * i)).collect();
+                    let refs: Vec<&Vec<Fr381>> = polys.iter().collect();
+                    let zs: Vec<Fr381> = pts_all[..npts].to_vec();
+                    let cs: Vec<skzg::Commitment<E381>> = polys.iter().map(|p| ck.commit(p)).collect();
+                    let evs: Vec<Vec<Fr381>> = polys.iter().map(|p| zs.iter().map(|z| crate::refm::horner(p, *z)).collect()).collect();
+                    let pf = match catch(|| ck.batch_open_multi_points(&refs, &zs, &eta)) {
+                        Ok(p) => p,
+                        Err(_) => continue,
+                    };
+                    let mut both = |rec: &mut Rec, op: &str, cs: &[skzg::Commitment<E381>], zs: &[Fr381], evs: &[Vec<Fr381>], pf: &skzg::EvaluationProof<E381>| {
+                        let want = reference(cs, zs, evs, pf, eta);
+                        let got = match catch(|| vk.verify_multi_points(cs, zs, evs, pf, &eta)) {
+                            Ok(Ok(())) => Dec::Acc,
+                            Ok(Err(_)) => Dec::Rej,
+                            Err(e) => Dec::Panic(e),
+                        };
+                        c10_cmp(rec, "STR", "verify_multi_points", op, &id, want, &got);
+                    };
+                    both(rec, "honest", &cs, &zs, &evs, &pf);
+                    for i in 0..npoly {
+                        for j in 0..npts {
+                            for (n, f) in f_alpha(&evs[i][j], None, rec.seed) {
+                                let mut e2 = evs.clone();
+                                e2[i][j] = f;
+                                both(rec, &format!("value[{}][{}]:={}", i, j, n), &cs, &zs, &e2, &pf);
+                            }
+                        }
+                    }
+                    for j in 0..npts {
+                        let mut z2 = zs.clone();
+                        z2[j] = pts_all[5];
+                        both(rec, &format!("point[{}]:=other", j), &cs, &z2, &evs, &pf);
+                    }
+                    for i in 0..npoly {
+                        for (n, x) in g_alpha::<G1>(&cs[i].verif_inner(), Some(&gp[0]), rec.seed) {
+                            let mut c2 = cs.clone();
+                            c2[i] = skzg::Commitment::verif_from_inner(x);
+                            both(rec, &format!("commitment[{}]:={}", i, n), &c2, &zs, &evs, &pf);
+                        }
+                    }
+                    for (n, x) in g_alpha::<G1>(&pf.0, Some(&gp[0]), rec.seed) {
+                        both(rec, &format!("proof:={}", n), &cs, &zs, &evs, &skzg::EvaluationProof(x));
+                    }
+                }
+            }
+        }
+    }
 }
